@@ -16,7 +16,7 @@ from ..refmodel import Model, mrec
 PROP = "C17"
 
 CONVERTERS = [
-    [mrec("GO", "http://purl/GO_", ["gomf"]), mrec("doi", "https://doi.org/")],
+    [mrec("GO", "http://purl/GO_", ["gomf"], [], "^\\d{7}$"), mrec("doi", "https://doi.org/")],   # the (experimental) pattern plays no role in resolving
     [mrec("go", "http://x/go:"), mrec("GO", "http://y/GO/", ["G.O"])],
     [mrec("a.b", "http://ab/", ["a-b", "a_b"], ["http://ab2/"])],
     [],   # a resolver over an empty converter knows no prefix: every request answers 422
@@ -26,6 +26,7 @@ CONVERTERS = [
 UNKNOWN = ["zz", "Go", "urn"]
 SEGMENTS = ["1", "ab", "10.1", "x_y", "a:b", "a:b:c", ":5", "1::2", "5:", "lsid:7"]   # the last three: leading / doubled / trailing delimiter
 DELIMS = [":", "/"]
+SAFE_PUNCT = list("-._~!$&'()*+,;=:@")
 
 
 def identifiers(maxseg):
@@ -45,6 +46,16 @@ def units(tier, seed):
             for ch in chunks(mine, (8 if tier == "quick" else 32) if ci < 3 else 2):
                 us.append({"conv": ci, "delim": d, "ids": ch})
     us += [{"kind": "shared", "delim": d} for d in DELIMS]
+    # breadth sweep: every URL-path-safe punctuation character (RFC 3986 unreserved / sub-delims / ':' / '@') inside, before and
+    # after a segment, alone and in a two-segment identifier
+    sw = []
+    for c in SAFE_PUNCT:
+        sw += ["a" + c + "b", c + "1", "1" + c, c + c, "x/" + "a" + c + "b", "a" + c + "b/y"]
+    sw = [i for i in dict.fromkeys(sw) if not any(seg in (".", "..") for seg in i.split("/"))]
+    for ci in (0, 1, 2, 4):
+        for d in DELIMS:
+            for ch in chunks(sw, 2):
+                us.append({"conv": ci, "delim": d, "ids": ch})
     return us
 
 
